@@ -18,6 +18,7 @@ from ..core import (
     self_fields_read,
 )
 from ..flow import conditions, consumers
+from ..core import switch_sites
 from .. import engine
 from . import io_rules
 
@@ -84,6 +85,14 @@ def _cmp_facts(body, bb):
         if truth is None:
             continue
         for o in origins(body, c.place, transparent=()):
+            if o.kind == "call" and truth and callee_matches(o.data, r"^core::ops::range::(RangeInclusive|Range|RangeFrom)::<.*>::contains$|^core::ops::range::(RangeInclusive|Range|RangeFrom)::contains$"):
+                rg = _range_bounds(body, o.site.node["args"][0])
+                item = _deref_root(body, o.site.node["args"][1])
+                if rg is not None and item is not None:
+                    k0 = op_const(rg[0])
+                    if k0 is not None and "int" in k0:
+                        out.append((item, k0["int"], o))
+                continue
             if o.kind != "binop":
                 continue
             op = o.data["op"]
@@ -102,6 +111,29 @@ def _cmp_facts(body, bb):
                 if lb is not None:
                     out.append((root, lb, o))
     return out
+
+
+def _deref_root(body, refop):
+    """value root of `*r` for a reference operand r (`&n` handed to a call)"""
+    q = op_place(refop)
+    if q is None:
+        return None
+    return value_root(body, {"l": q["l"], "p": list(q["p"]) + ["*"]} if q["p"] else {"l": q["l"], "p": ["*"]})
+
+
+def _range_bounds(body, refop):
+    """(start operand, end operand or None, inclusive) of the range a reference operand points to"""
+    for o in origins(body, refop, transparent=()):
+        if o.kind == "call" and callee_matches(o.data, r"range::RangeInclusive::<.*>::new$|range::RangeInclusive::new$"):
+            return (o.site.node["args"][0], o.site.node["args"][1], True)
+        if o.kind == "agg" and (o.data.get("path") or "").startswith("core::ops::range::Range"):
+            ops = o.site.node["rv"]["ops"]
+            nm = o.data["path"].rsplit("::", 1)[-1]
+            if nm == "Range" and len(ops) == 2:
+                return (ops[0], ops[1], False)
+            if nm == "RangeFrom" and len(ops) == 1:
+                return (ops[0], None, False)
+    return None
 
 
 def lower_bound(prog, body, op, site, depth=0):
@@ -626,6 +658,353 @@ def _is_exact_call_result(prog, body, op, regex, parent=None, call_site=None):
     return False
 
 
+_VALUE_KEEPING = (
+    "core::ops::try_trait::Try::branch",
+    "anyhow::Context::with_context",
+    "anyhow::Context::context",
+    "core::option::Option::ok_or_else",
+    "core::option::Option::ok_or",
+    "core::result::Result::map_err",
+    "core::option::Option::unwrap",
+    "core::option::Option::expect",
+    "core::result::Result::unwrap",
+    "core::result::Result::expect",
+    "core::result::Result::ok",
+)
+_PAYLOAD_MAPPERS = r"^core::(option::Option|result::Result)::(map|and_then|is_some_and|is_ok_and)$"
+_PARSE = r"^core::str::parse$|^core::str::<impl str>::parse$|str::traits::FromStr::from_str$"
+
+
+def _fields_place(l, fields):
+    return {"l": l, "p": [{"f": f} for f in fields]}
+
+
+def _caller_operand(prog, body, param_local, stack):
+    """[(caller body, operand, fields prefix, rest of the stack)] the values a parameter of `body` receives: from the call site on the
+    stack, else from every call site of the function; a closure handed to Option::map & co. receives the payload of the receiver"""
+    from ..tags import _closure_capture_operand
+
+    out = []
+    if body.kind == "closure":
+        k = param_local - 2
+        sites = []
+        if stack:
+            sites = [stack[-1]]
+            rest = stack[:-1]
+        else:
+            rest = []
+            par = None
+            for x in prog.bodies_in(body.target):
+                if x.path == body.parent["direct"]:
+                    par = x
+            if par is not None:
+                for cs in par.calls():
+                    c = callee_of(cs)
+                    if c is not None and body.path in (c.get("fn_args") or []):
+                        if callee_matches(c, _PAYLOAD_MAPPERS) and k == 0:
+                            out.append((par, cs.node["args"][0], ("0",), []))
+                        else:
+                            out.append((par, None, (), []))
+                    elif c is not None and prog.body_for_callee(c, par) is body:
+                        sites.append((par, cs))
+        for pb, cs in sites:
+            if len(cs.node["args"]) < 2:
+                out.append((pb, None, (), rest))
+                continue
+            found = False
+            for oo in origins(pb, cs.node["args"][1], transparent=()):
+                if oo.kind == "agg" and oo.data["kind"] == "tuple" and k < len(oo.site.node["rv"]["ops"]):
+                    out.append((pb, oo.site.node["rv"]["ops"][k], (), rest))
+                    found = True
+            if not found:
+                out.append((pb, None, (), rest))
+        return out
+    k = param_local - 1
+    if stack:
+        pb, cs = stack[-1]
+        return [(pb, cs.node["args"][k] if k < len(cs.node["args"]) else None, (), stack[:-1])]
+    for cs in prog.callers_of(body):
+        out.append((cs.body, cs.node["args"][k] if k < len(cs.node["args"]) else None, (), []))
+    return out
+
+
+class IndexForm:
+    """one way an argument id is produced: `parsed number - minus`, the number parsed at `parse` (a call site of str::parse in `body`,
+    reached through the call `stack`), the subtraction at `sub` (site, operand) or None; `unknown` when the value is something else"""
+
+    def __init__(self, minus, body=None, parse=None, stack=(), sub=None, unknown=None):
+        self.minus, self.body, self.parse, self.stack, self.sub, self.unknown = minus, body, parse, list(stack), sub, unknown
+
+
+def index_forms(prog, body, place_or_op, stack=(), minus=0, sub=None, depth=0):
+    from ..tags import _closure_capture_operand
+
+    out = []
+    if depth > 12:
+        return [IndexForm(minus, unknown="depth")]
+    stack = list(stack)
+    for o in origins(body, place_or_op, transparent=_VALUE_KEEPING):
+        if o.kind == "binop" and o.data["op"] in ("Sub", "SubWithOverflow") and (op_const(o.data["ops"][1]) or {}).get("int") is not None:
+            out += index_forms(prog, body, o.data["ops"][0], stack, minus + op_const(o.data["ops"][1])["int"], sub or (body, o.site, o.data["ops"][0], list(stack)), depth + 1)
+        elif o.kind == "binop" and o.data["op"] in ("Add", "AddWithOverflow") and (op_const(o.data["ops"][1]) or {}).get("int") is not None:
+            out += index_forms(prog, body, o.data["ops"][0], stack, minus - op_const(o.data["ops"][1])["int"], sub, depth + 1)
+        elif o.kind == "call" and callee_matches(o.data, _PARSE):
+            out.append(IndexForm(minus, body, o.site, stack, sub))
+        elif o.kind == "call":
+            tgt = prog.body_for_callee(o.data, body) if callee_decl(o.data) != "<indirect>" else None
+            if tgt is not None:
+                out += index_forms(prog, tgt, _fields_place(0, o.fields), stack + [(body, o.site)], minus, sub, depth + 1)
+            elif callee_matches(o.data, _PAYLOAD_MAPPERS):
+                # the payload produced by the mapping closure
+                done = False
+                for fa in o.data.get("fn_args") or []:
+                    cb = prog.by_target[body.target].get(fa) or prog.by_target["lib"].get(fa)
+                    if cb is not None:
+                        out += index_forms(prog, cb, _fields_place(0, o.fields[1:] if o.fields else ()), stack + [(body, o.site)], minus, sub, depth + 1)
+                        done = True
+                if not done:
+                    out.append(IndexForm(minus, unknown=callee_decl(o.data)))
+            else:
+                dty = body.local_ty(o.site.node["dst"]["l"]) if not o.site.node["dst"]["p"] else ""
+                if not o.fields and dty and not re.match(r"^(usize|isize|u\d+|i\d+)$", dty):
+                    continue  # not a number: the error value of the other variant, projected by field position
+                out.append(IndexForm(minus, unknown=callee_decl(o.data)))
+        elif o.kind == "param":
+            got = _caller_operand(prog, body, o.data, stack)
+            if not got:
+                out.append(IndexForm(minus, unknown="parameter without a visible caller"))
+            for pb, aop, pre, rest in got:
+                if aop is None:
+                    out.append(IndexForm(minus, unknown="argument not traced"))
+                    continue
+                q = op_place(aop)
+                if q is None:
+                    out.append(IndexForm(minus, unknown="constant"))
+                    continue
+                pl = {"l": q["l"], "p": list(q["p"]) + [{"f": f} for f in tuple(pre) + tuple(o.fields)]}
+                out += index_forms(prog, pb, pl, rest, minus, sub, depth + 1)
+        elif o.kind == "upvar":
+            par, cap = _closure_capture_operand(prog, body, o.data)
+            q = op_place(cap) if cap is not None else None
+            if q is None:
+                out.append(IndexForm(minus, unknown="capture"))
+            else:
+                # a by-reference capture is `&local`
+                ds = par.defs.get(q["l"], [])
+                if not q["p"] and len(ds) == 1 and ds[0].si is not None and ds[0].node["k"] == "assign" and ds[0].node["rv"]["k"] == "ref":
+                    q = ds[0].node["rv"]["place"]
+                pl = {"l": q["l"], "p": list(q["p"]) + [{"f": f} for f in o.fields]}
+                rest = stack[:-1] if stack and stack[-1][0] is par else []
+                out += index_forms(prog, par, pl, rest, minus, sub, depth + 1)
+        elif o.kind == "const":
+            out.append(IndexForm(minus, unknown="constant"))
+        else:
+            out.append(IndexForm(minus, unknown=o.kind))
+    return out
+
+
+def _resolves_to_call(prog, body, op, regex, stack, depth=0):
+    """the operand is (a copy of) the result of a call matching `regex`, possibly handed down through parameters / captures"""
+    from ..tags import _closure_capture_operand
+
+    if depth > 8:
+        return False
+    root = value_root(body, op)
+    if root is None:
+        return False
+    l = root[1]
+    flds = root[2] if root[0] == "place" else ()
+    if body.kind == "closure" and l == 1 and flds:
+        try:
+            fld = int(flds[0])
+        except ValueError:
+            return False
+        par, cap = _closure_capture_operand(prog, body, fld)
+        q = op_place(cap) if cap is not None else None
+        if q is None:
+            return False
+        ds = par.defs.get(q["l"], [])
+        if not q["p"] and len(ds) == 1 and ds[0].si is not None and ds[0].node["k"] == "assign" and ds[0].node["rv"]["k"] == "ref":
+            q = ds[0].node["rv"]["place"]
+        rest = stack[:-1] if stack and stack[-1][0] is par else []
+        return _resolves_to_call(prog, par, {"c": q}, regex, rest, depth + 1)
+    if flds:
+        return False
+    first_param = 2 if body.kind == "closure" else 1
+    if first_param <= l <= body.n_args and not body.defs.get(l):
+        got = _caller_operand(prog, body, l, list(stack))
+        return bool(got) and all(aop is not None and _resolves_to_call(prog, pb, aop, regex, rest, depth + 1) for pb, aop, pre, rest in got)
+    ds = body.defs.get(l, [])
+    return len(ds) == 1 and ds[0].si is None and callee_matches(callee_of(ds[0]), regex)
+
+
+def _word_index(prog, body, op, stack, depth=0):
+    """which word of the line an operand is: the constant index of `words[i]`, or the position of the `next()` call on the word iterator"""
+    if depth > 8:
+        return None
+    res = None
+    for o in origins(body, op, transparent=_VALUE_KEEPING + ("core::ops::deref::Deref::deref",)):
+        if o.kind == "call" and callee_decl(o.data) == "core::ops::index::Index::index":
+            kk = op_const(o.site.node["args"][1])
+            if kk is not None and "int" in kk:
+                res = kk["int"]
+        elif o.kind == "call" and callee_matches(o.data, r"iter::traits::iterator::Iterator::next$"):
+            it = value_root(body, {"l": op_place(o.site.node["args"][0])["l"], "p": ["*"]}) if op_place(o.site.node["args"][0]) is not None else None
+            n = 0
+            for s2 in body.calls():
+                if s2 is o.site or (s2.bb, s2.si) == (o.site.bb, o.site.si):
+                    continue
+                if callee_matches(callee_of(s2), r"iter::traits::iterator::Iterator::next$") and body.dominates(s2, o.site):
+                    q = op_place(s2.node["args"][0])
+                    it2 = value_root(body, {"l": q["l"], "p": ["*"]}) if q is not None else None
+                    if it2 == it:
+                        n += 1
+            res = n
+        elif o.kind == "param":
+            for pb, aop, pre, rest in _caller_operand(prog, body, o.data, list(stack)):
+                if aop is not None:
+                    w = _word_index(prog, pb, aop, rest, depth + 1)
+                    if w is not None:
+                        res = w
+    return res
+
+
+def _form_bounds(prog, f):
+    """(lower bound of the parsed number, upper bound is the framework's argument count) where the number is used: at the subtraction and
+    at every `Ok(..)` / `Some(..)` built from it in the parsing function"""
+    b = f.body
+    payload_local = f.parse.node["dst"]["l"]
+    checkpoints = []
+    for s in b.sites():
+        n = s.node
+        if s.si is not None and n["k"] == "assign" and n["rv"]["k"] == "aggregate" and n["rv"]["agg"].get("variant") in ("Ok", "Some") and n["rv"]["ops"]:
+            roots, _, _ = data_deps(b, n["rv"]["ops"][0], through_calls=False)
+            if payload_local in roots:
+                vop = n["rv"]["ops"][0]
+                # the number itself: peel a subtraction in the same function
+                for o in origins(b, vop, transparent=()):
+                    if o.kind == "binop" and o.data["op"] in ("Sub", "SubWithOverflow"):
+                        vop = o.data["ops"][0]
+                checkpoints.append((b, s, vop, f.stack))
+    if f.sub is not None:
+        checkpoints.append((f.sub[0], f.sub[1], f.sub[2], f.sub[3]))
+    lbs, ubs = [], []
+    for cb, site, vop, stack in checkpoints:
+        lbs.append(lower_bound(prog, cb, vop, site))
+        ub = False
+        root = value_root(cb, vop)
+        for c in conditions(cb, site.bb):
+            if c.is_discr or not c.is_true():
+                continue
+            for o in origins(cb, c.place, transparent=()):
+                if o.kind == "binop" and o.data["op"] == "Le":
+                    a, b2 = o.data["ops"]
+                    if value_root(cb, a) == root and _resolves_to_call(prog, cb, b2, r"AAFramework::n_arguments$", stack):
+                        ub = True
+                elif o.kind == "binop" and o.data["op"] == "Ge":
+                    a, b2 = o.data["ops"]
+                    if value_root(cb, b2) == root and _resolves_to_call(prog, cb, a, r"AAFramework::n_arguments$", stack):
+                        ub = True
+                elif o.kind == "call" and callee_matches(o.data, r"range::RangeInclusive::<.*>::contains$|range::RangeInclusive::contains$"):
+                    rg = _range_bounds(cb, o.site.node["args"][0])
+                    if rg is not None and rg[2] and _deref_root(cb, o.site.node["args"][1]) == root and _resolves_to_call(prog, cb, rg[1], r"AAFramework::n_arguments$", stack):
+                        ub = True
+        ubs.append(ub)
+    known = [x for x in lbs if x is not None]
+    return (max(known) if known else None), any(ubs), len(checkpoints)
+
+
+def _check_id(prog, r, body, op, site, anchor, role, want_word):
+    forms = index_forms(prog, body, op)
+    unknown = [f for f in forms if f.unknown is not None]
+    if not forms or unknown:
+        r.ok(anchor, "NOT decided: the %s id is not traced to a parsed number (%s)" % (role, sorted({str(f.unknown) for f in unknown})[:3]), site.loc())
+        return
+    bad = [f for f in forms if f.minus != 1]
+    if not r.check(not bad, anchor, "not-k-minus-1", "%s id is k - 1" % role, "the %s id is `parsed index - %s`, not `parsed index - 1`" % (role, bad[0].minus if bad else "?"), site.loc()):
+        return
+    for f in forms:
+        if want_word is not None:
+            w = _word_index(prog, f.body, f.parse.node["args"][0], f.stack)
+            if w is None:
+                r.ok(anchor + "|word", "NOT decided: the word the %s is parsed from was not identified" % role, f.parse.loc())
+            else:
+                r.check(w == want_word, anchor, "word=%s" % w, "%s is parsed from word %d of the line" % (role, want_word), "the %s is parsed from word %s of the line" % (role, w), site.loc())
+        lb, ub, ncp = _form_bounds(prog, f)
+        r.check(lb is not None and lb >= 1, anchor, "lower-bound=%s" % lb, "accepted indexes are >= 1", "an index < 1 can be accepted (k - 1 underflows)", f.parse.loc())
+        r.check(ub, anchor, "no-upper-bound", "accepted indexes are <= the framework's argument count", "an index above the number of arguments can be accepted", f.parse.loc())
+
+
+def _blank_line_rejected(prog, rd):
+    """None when the loop shape is not recognised, else (ok, what): after a blank line, a line with content returns an error before any
+    framework construction / attack insertion and before the next line is read.  Path-sensitive on the bool / enum cells of the function."""
+    from ..flow import cell_steps
+
+    empt = []  # (switch block, true target, false target)
+    comm = []
+    for sw in switch_sites(rd):
+        t = sw.node
+        p = op_place(t["discr"])
+        if p is None or p["p"]:
+            continue
+        for o in origins(rd, p, transparent=()):
+            if o.kind == "call" and callee_matches(o.data, r"String::is_empty$|str::is_empty$"):
+                zero = [tb for x, tb in t["targets"] if x == "0"]
+                if zero:
+                    empt.append((sw.bb, t["otherwise"], zero[0]))
+            if o.kind == "call" and callee_matches(o.data, r"str::starts_with$|String::starts_with$|str::<impl str>::starts_with$"):
+                zero = [tb for x, tb in t["targets"] if x == "0"]
+                if zero:
+                    comm.append((sw.bb, t["otherwise"], zero[0]))
+    if not empt:
+        return None
+    class _L:
+        pass
+
+    loops = []
+    for h, blks in rd.loops():
+        if any(e[0] in blks for e in empt):
+            l = _L()
+            l.header, l.blocks = h, blks
+            loops.append(l)
+    if not loops:
+        return None
+    loop = max(loops, key=lambda l: len(l.blocks))
+    build = {s.bb for s in rd.calls() if callee_matches(callee_of(s), r"AAFramework::new_attack_by_ids$|AAFramework::new_attack$|ArgumentSet::new_with_labels$|AAFramework::new_with_argument_set$")}
+    need = {"ne"} | ({"nc"} if any(c[0] in loop.blocks for c in comm) else set())
+    seen = set()
+    work = []
+    for sb, tt, ft in empt:
+        work.append((tt, (), frozenset()))
+    bad = None
+    while work and bad is None:
+        bb, envt, flags = work.pop()
+        if (bb, envt, flags) in seen or len(seen) > 20000:
+            continue
+        seen.add((bb, envt, flags))
+        if bb == loop.header:
+            flags = frozenset()
+        if bb in build and bb in loop.blocks:
+            bad = "a line after a blank line reaches the framework construction / attack insertion"
+            break
+        for sc, e2, edge in cell_steps(prog, rd, bb, envt):
+            f2 = set(flags)
+            for sb, tt, ft in empt:
+                if bb == sb and sc == ft and sc != tt:
+                    f2.add("ne")
+            for sb, tt, ft in comm:
+                if bb == sb and sc == ft and sc != tt:
+                    f2.add("nc")
+            if sc == loop.header and need <= f2:
+                bad = "a line with content after a blank line is skipped instead of rejected"
+                break
+            if sc not in loop.blocks and sc != loop.header:
+                # leaving the loop: the end of the input (normal) or an error return
+                continue
+            work.append((sc, e2, frozenset(f2)))
+    return (bad is None, bad)
+
+
 def rule_iccma_guards(ctx):
     prog = ctx.prog
     r = ctx.rule(
@@ -635,11 +1014,11 @@ def rule_iccma_guards(ctx):
     )
     rd = None
     for imp, b in prog.impl_methods(READER, "read"):
-        if any(callee_matches(callee_of(s), r"^aa::aa_framework::AAFramework::new_attack_by_ids$") for s in b.calls()):
+        if any(callee_matches(callee_of(s), r"^aa::aa_framework::AAFramework::new_attack_by_ids$") for y in prog.with_closures(b) for s in y.calls()):
             rd = b
     if not r.require_anchor(rd, "InstanceReader::read inserting attacks by id"):
         return
-    ins = [s for s in rd.calls() if callee_matches(callee_of(s), r"^aa::aa_framework::AAFramework::new_attack_by_ids$")]
+    ins = [s for y in prog.with_closures(rd) for s in y.calls() if callee_matches(callee_of(s), r"^aa::aa_framework::AAFramework::new_attack_by_ids$")]
     # G5: labels 1..=n
     lab = [s for s in rd.calls() if callee_matches(callee_of(s), r"^aa::arguments::ArgumentSet::new_with_labels$")]
     ok = False
@@ -657,110 +1036,20 @@ def rule_iccma_guards(ctx):
     # G2/G6/G7: per inserted id
     for s in ins:
         for pos, role in ((1, "attacker"), (2, "attacked")):
-            op = s.node["args"][pos]
-            sub = None
-            for o in origins(rd, op, transparent=()):
-                if o.kind == "binop" and o.data["op"] in ("Sub", "SubWithOverflow"):
-                    sub = o
-            anchor = "%s|%s" % (rd.id, role)
-            if not r.check(sub is not None and (op_const(sub.data["ops"][1]) or {}).get("int") == 1, anchor, "not-k-minus-1", "%s id is k - 1" % role, "the %s id is not `parsed index - 1`" % role, s.loc()):
-                continue
-            kop = sub.data["ops"][0]
-            # the closure that parsed it
-            parser = None
-            parser_call = None
-            word_idx = None
-            root = value_root(rd, kop)
-            if root and root[0] == "place":
-                for o in origins(rd, {"l": root[1], "p": []}, transparent=("core::ops::try_trait::Try::branch", "anyhow::Context::with_context", "anyhow::Context::context")):
-                    if o.kind == "call":
-                        parser = prog.body_for_callee(o.data, rd)
-                        parser_call = o.site
-                        # which word: tuple argument (word, role name) of a closure call, first argument of a plain function
-                        word_ops = []
-                        if parser is not None and parser.kind != "closure":
-                            word_ops = [o.site.node["args"][0]] if o.site.node["args"] else []
-                        else:
-                            for oo in origins(rd, o.site.node["args"][1], transparent=()) if len(o.site.node["args"]) > 1 else []:
-                                if oo.kind == "agg" and oo.data["kind"] == "tuple":
-                                    word_ops.append(oo.site.node["rv"]["ops"][0])
-                        for wop in word_ops:
-                            _, cs, _ = data_deps(rd, wop)
-                            for cx in cs:
-                                if callee_decl(callee_of(cx)) == "core::ops::index::Index::index":
-                                    kk = op_const(cx.node["args"][1])
-                                    if kk is not None:
-                                        word_idx = kk.get("int")
-            r.check(word_idx == pos - 1, anchor, "word=%s" % word_idx, "%s is parsed from word %d of the line" % (role, pos - 1), "the %s is parsed from word %s of the line" % (role, word_idx), s.loc())
-            if not r.check(parser is not None, anchor, "no-parser", "index parsed by a local closure", loc=s.loc()):
-                continue
-            lb = ok_value_lower_bound(prog, parser)
-            r.check(lb is not None and lb >= 1, anchor, "lower-bound=%s" % lb, "accepted indexes are >= 1", "an index < 1 can be accepted (k - 1 underflows)", parser.loc())
-            # upper bound: Ok only under (n as usize) <= n_args, n_args = af.n_arguments()
-            ub = False
-            for ps in parser.sites():
-                n = ps.node
-                if ps.si is not None and n["k"] == "assign" and n["rv"]["k"] == "aggregate" and n["rv"]["agg"].get("variant") == "Ok" and n["rv"]["agg"].get("path") == "core::result::Result":
-                    for c in conditions(parser, ps.bb):
-                        if c.is_discr or not c.is_true():
-                            continue
-                        for o in origins(parser, c.place, transparent=()):
-                            if o.kind == "binop" and o.data["op"] == "Le":
-                                a, b2 = o.data["ops"]
-                                if value_root(parser, a) == value_root(parser, n["rv"]["ops"][0]) and _is_exact_call_result(prog, parser, b2, r"AAFramework::n_arguments$", parent=rd, call_site=parser_call):
-                                    ub = True
-            r.check(ub, anchor, "no-upper-bound", "accepted indexes are <= the framework's argument count", "an index above the number of arguments can be accepted", parser.loc())
-    # G4 blank-line flag
-    flags = [l for l, nm in rd.names.items() if rd.local_ty(l) == "bool"]
-    okf = False
-    for f in flags:
-        trues = [w for w in rd.defs.get(f, []) if w.si is not None and (op_const(w.node["rv"]["ops"][0]) or {}).get("bool") is True] if True else []
-        raised_on_empty = False
-        for w in trues:
-            for c in conditions(rd, w.bb):
-                if c.is_true():
-                    for o in origins(rd, c.place, transparent=()):
-                        if o.kind == "call" and callee_matches(o.data, r"String::is_empty$|str::is_empty$"):
-                            raised_on_empty = True
-        if not raised_on_empty:
-            continue
-        # consulted: an Err return under flag true, dominating the word processing
-        splits = [s for s in rd.calls() if callee_matches(callee_of(s), r"str::split_whitespace$|str::split_ascii_whitespace$")]
-        errs = []
-        for s in rd.sites():
-            n = s.node
-            if s.si is not None and n["k"] == "assign" and n["rv"]["k"] == "aggregate" and n["rv"]["agg"].get("variant") == "Err":
-                for c in conditions(rd, s.bb):
-                    if c.is_true() and value_root(rd, c.place) == ("local", f):
-                        errs.append(s)
-        guarded_split = all(any(c.is_false() and value_root(rd, c.place) == ("local", f) for c in conditions(rd, sp.bb)) for sp in splits) and bool(splits)
-        if errs and guarded_split:
-            okf = True
-    r.check(okf, rd.id + "|blank-line", "blank-line-flag", "content after a blank line is rejected before it is parsed", "content after a blank line is not rejected", rd.loc())
+            _check_id(prog, r, s.body, s.node["args"][pos], s, "%s|%s" % (rd.id, role), role, pos - 1)
+    # G4 content after a blank line
+    res = _blank_line_rejected(prog, rd)
+    if res is None:
+        r.ok(rd.id + "|blank-line", "NOT decided: no `is_empty()` test on the line inside a loop was found", rd.loc())
+    else:
+        r.check(res[0], rd.id + "|blank-line", "blank-line-flag", "content after a blank line is rejected before it is parsed", "content after a blank line is not rejected: %s" % res[1], rd.loc())
     # query argument lookup
     for imp, b in prog.impl_methods(READER, "read_arg_from_str"):
-        byid = [s for s in b.calls() if callee_matches(callee_of(s), r"ArgumentSet::get_argument_by_id$")]
+        byid = [s for y in prog.with_closures(b) for s in y.calls() if callee_matches(callee_of(s), r"ArgumentSet::get_argument_by_id$")]
         if not byid:
             continue
         for s in byid:
-            op = s.node["args"][1]
-            sub = None
-            for o in origins(b, op, transparent=()):
-                if o.kind == "binop" and o.data["op"] in ("Sub", "SubWithOverflow"):
-                    sub = o
-            anchor = b.id + "|lookup"
-            if not r.check(sub is not None and (op_const(sub.data["ops"][1]) or {}).get("int") == 1, anchor, "not-k-minus-1", "query argument k maps to id k - 1", "the query argument is not mapped to id k - 1", s.loc()):
-                continue
-            lb = lower_bound(prog, b, sub.data["ops"][0], s)
-            r.check(lb is not None and lb >= 1, anchor, "lower-bound=%s" % lb, "lookup only for k >= 1", "k = 0 reaches `k - 1`", s.loc())
-            ub = False
-            for c in conditions(b, s.bb):
-                if c.is_true():
-                    for o in origins(b, c.place, transparent=()):
-                        if o.kind == "binop" and o.data["op"] == "Le":
-                            if _is_exact_call_result(prog, b, o.data["ops"][1], r"AAFramework::n_arguments$") and value_root(b, o.data["ops"][0]) == value_root(b, sub.data["ops"][0]):
-                                ub = True
-            r.check(ub, anchor, "no-upper-bound", "lookup only for k <= number of arguments", "k above the number of arguments reaches the lookup", s.loc())
+            _check_id(prog, r, s.body, s.node["args"][1], s, b.id + "|lookup", "query argument", None)
 
 
 def _capture_operand(prog, clo, field):
